@@ -1,0 +1,109 @@
+//go:build verif
+
+// Add-only verification hook (build tag `verif`): exposes the unexported partial-decoding
+// (projection) structs of partial_cbor.go to the /verif C07 translator and harness by reflection.
+// Nothing here is compiled into a normal build.
+package core
+
+import (
+	"fmt"
+	"reflect"
+
+	"github.com/NethermindEth/juno/encoder"
+)
+
+// VerifProjection names one decode-only projection struct and the full struct(s) whose stored
+// records it is decoded from.
+type VerifProjection struct {
+	Name  string
+	Type  reflect.Type
+	Fulls []reflect.Type
+}
+
+// VerifDiscardedType is the placeholder type of fields a projection does not materialise.
+func VerifDiscardedType() reflect.Type { return reflect.TypeFor[discardedCBOR]() }
+
+// VerifFullLayouts lists the stored record structs whose CBOR layout the projections depend on.
+func VerifFullLayouts() []reflect.Type {
+	return []reflect.Type{
+		reflect.TypeFor[Header](),
+		reflect.TypeFor[DeclareTransaction](),
+		reflect.TypeFor[DeployTransaction](),
+		reflect.TypeFor[DeployAccountTransaction](),
+		reflect.TypeFor[InvokeTransaction](),
+		reflect.TypeFor[L1HandlerTransaction](),
+		reflect.TypeFor[TransactionReceipt](),
+		reflect.TypeFor[BlockTransactionsIndexes](),
+	}
+}
+
+func verifTxTypes() []reflect.Type {
+	return []reflect.Type{
+		reflect.TypeFor[DeclareTransaction](),
+		reflect.TypeFor[DeployTransaction](),
+		reflect.TypeFor[DeployAccountTransaction](),
+		reflect.TypeFor[InvokeTransaction](),
+		reflect.TypeFor[L1HandlerTransaction](),
+	}
+}
+
+// VerifProjections lists every projection struct that materialises at least one field.
+func VerifProjections() []VerifProjection {
+	header := []reflect.Type{reflect.TypeFor[Header]()}
+	receipt := []reflect.Type{reflect.TypeFor[TransactionReceipt]()}
+	p := func(t reflect.Type, fulls []reflect.Type) VerifProjection {
+		return VerifProjection{Name: t.Name(), Type: t, Fulls: fulls}
+	}
+	return []VerifProjection{
+		p(reflect.TypeFor[headerHashProjection](), header),
+		p(reflect.TypeFor[headerGlobalStateRootProjection](), header),
+		p(reflect.TypeFor[headerTransactionCountProjection](), header),
+		p(reflect.TypeFor[headerTimestampProjection](), header),
+		p(reflect.TypeFor[headerEventsBloomProjection](), header),
+		p(reflect.TypeFor[headerHashAndStateRootProjection](), header),
+		p(reflect.TypeFor[receiptExecutionStatusProjection](), receipt),
+		p(reflect.TypeFor[receiptEventsProjection](), receipt),
+		p(reflect.TypeFor[transactionHashProjection](), verifTxTypes()),
+	}
+}
+
+// VerifSkeletons lists the all-discarded skeleton structs the projections embed.
+func VerifSkeletons() []VerifProjection {
+	return []VerifProjection{
+		{
+			Name:  "discardedHeaderSkeleton",
+			Type:  reflect.TypeFor[discardedHeaderSkeleton](),
+			Fulls: []reflect.Type{reflect.TypeFor[Header]()},
+		},
+		{
+			Name:  "discardedReceiptSkeleton",
+			Type:  reflect.TypeFor[discardedReceiptSkeleton](),
+			Fulls: []reflect.Type{reflect.TypeFor[TransactionReceipt]()},
+		},
+	}
+}
+
+// VerifDecodeProjection decodes data with the production decoder into a fresh value of the named
+// projection struct and returns its materialised (non-discarded, directly declared) fields by Go
+// field name.
+func VerifDecodeProjection(name string, data []byte) (map[string]any, error) {
+	for _, p := range VerifProjections() {
+		if p.Name != name {
+			continue
+		}
+		v := reflect.New(p.Type)
+		if err := encoder.Unmarshal(data, v.Interface()); err != nil {
+			return nil, err
+		}
+		out := map[string]any{}
+		for i := range p.Type.NumField() {
+			f := p.Type.Field(i)
+			if f.Anonymous || f.Type == VerifDiscardedType() {
+				continue
+			}
+			out[f.Name] = v.Elem().Field(i).Interface()
+		}
+		return out, nil
+	}
+	return nil, fmt.Errorf("unknown projection %q", name)
+}
